@@ -143,6 +143,13 @@ impl Iterator for CatchGradualDifficulty {
     }
 
     fn nth(&mut self, n: usize) -> Option<Self::Item> {
+        if n >= self.len() {
+            // Fewer than `n + 1` values remain so the iterator is exhausted
+            self.idx = self.diff_objects.len() + 1;
+
+            return None;
+        }
+
         let skip_iter = self.diff_objects.iter().skip(self.idx.saturating_sub(1));
 
         let mut take = cmp::min(n, self.len().saturating_sub(1));
